@@ -11,6 +11,7 @@ range gives (`xs ++ values`); after a throw the events are a prefix ending in th
 -/
 import SvModel.Proofs.InputRange
 import SvModel.Proofs.InputAssign
+import SvModel.Proofs.InputMid
 import SvModel.Proofs.Examples
 import SvModel.Spec.L0
 
@@ -138,5 +139,38 @@ theorem assign_stream_prefix_on_throw (cfg : Cfg) (c sid : Nat) (vs : List α) (
   have h := assignWithRangeInput_sat cfg c sid vs w hv hl hN hpol
   rw [hr] at h
   exact ⟨h.1.vec, h.1.led, h.2⟩
+
+/-- MID-SEQUENCE insert of a single-pass range (`insert (pos, first, last)`, `pos ≠ end ()`: temporary container, then
+    move-insert), on return, for EVERY world and fault list: each position dereferenced once then incremented once, in
+    order, nothing at or beyond `last` — and nothing else in the whole operation (temporary, reallocation, shifting,
+    destruction) touches the iterator -/
+theorem insert_mid_stream_once (cfg : Cfg) (c pos sid : Nat) (vs : List α) (w w' : World α) (r : Nat)
+    (hr : insertRangeInputMid cfg c pos sid vs w = .ok r w') :
+    iterEvs w'.trace = iterEvs w.trace ++ streamEvs sid 0 vs.length := by
+  have h := insertRangeInputMid_iter cfg c pos sid vs w
+  rw [hr] at h; exact h
+
+/-- … after a throw: either the whole range had been consumed exactly once (the throw came from the insertion of the
+    buffered elements) or a prefix, the failing element having been dereferenced once and not incremented -/
+theorem insert_mid_stream_prefix_on_throw (cfg : Cfg) (c pos sid : Nat) (vs : List α) (w w' : World α) (e : Exc)
+    (hr : insertRangeInputMid cfg c pos sid vs w = .thrown e w') :
+    iterEvs w'.trace = iterEvs w.trace ++ streamEvs sid 0 vs.length ∨
+    ∃ k, k < vs.length ∧ iterEvs w'.trace = iterEvs w.trace ++ streamEvs sid 0 k ++ [.deref sid k] := by
+  have h := insertRangeInputMid_iter cfg c pos sid vs w
+  rw [hr] at h
+  rcases h with h | ⟨k, hk, h⟩
+  · exact Or.inl h
+  · exact Or.inr ⟨k, hk, by simpa using h⟩
+
+/-- non-vacuity: two elements inserted at position 1 of the full inline container of Proofs/Examples.lean (reallocates),
+    and the same call with a fault at the second element's construction in the temporary -/
+example : (match insertRangeInputMid Ex.cfgT 0 1 7 [10, 11] Ex.w0 with
+           | .ok r w' => r == 1 && iterEvs w'.trace == [.deref 7 0, .incr 7 0, .deref 7 1, .incr 7 1] &&
+                         (w'.mem (w'.hdr 0).data).take 4 == [.obj (.val 1), .obj (.val 10), .obj (.val 11), .obj (.val 2)]
+           | .thrown _ _ => false) = true := by decide +kernel
+example : (match insertRangeInputMid Ex.cfgT 0 1 7 [10, 11] { Ex.w0 with faults := [1] } with
+           | .ok _ _ => false
+           | .thrown _ w' => iterEvs w'.trace == [.deref 7 0, .incr 7 0, .deref 7 1] && w'.live == [] &&
+                             (w'.mem (w'.hdr 0).data).take 2 == [.obj (.val 1), .obj (.val 2)]) = true := by decide +kernel
 
 end SvModel.C15
